@@ -222,7 +222,10 @@ def gen_history(rng, max_jobs=6, max_runs=6):
                         subset.add(d["on"])
                         changed = True
         actions = [["submit", j] for j in sorted(subset)]
-        if rng.random() < 0.45:
+        if runs and rng.random() < 0.2:
+            # a generate-only run of the same experiment (job files only): must leave index and backup alone
+            runs.append({"actions": actions, "end": "normal", "mode": "generate"})
+        elif rng.random() < 0.45:
             runs.append({"actions": actions, "end": "exception", "abort_after": rng.randint(0, len(actions))})
         else:
             runs.append({"actions": actions, "end": "normal"})
